@@ -104,7 +104,7 @@ def prove(ctx, spec):
         if part.get("driver"):
             targets.append(part["driver"])
     with LakeLock():
-        rc, out = sh(["lake", "build"] + targets, cwd=LEAN, timeout=3600)
+        rc, out = sh(["timeout", "-k", "10", "1500", "lake", "build"] + targets, cwd=LEAN, timeout=3600)
     if rc != 0:
         ctx.obligation_failures.append({"kind": "lake-build", "detail": tail(out, 60)})
         ctx.log("lake build FAILED\n" + tail(out, 40))
